@@ -1,15 +1,120 @@
 /-
   C20 — label parsing and formatting are mutually inverse.
+  Property theorems only; helper lemmas live in TT/Lemmas/C20.lean.
 -/
 import TT.Spec.Label
 import TT.Generated.Consts
+import TT.Lemmas.C20
 namespace TT.Props.C20
-open TT TT.Spec
+open TT TT.Spec TT.Lemmas.C20
 
 /-- the literals used by the model are the ones `/repo` defines now (regenerated each run) -/
 theorem consts_tie :
     Gen.DEFAULT_EDGE = DEFAULT_EDGE ∧ Gen.DEFAULT_LABEL = DEFAULT_LABEL ∧
     Gen.DEFAULT_GF_SEPARATOR = DEFAULT_GF_SEP ∧ Gen.DEFAULT_COINDEX_SEPARATOR = ['-'] ∧
     Gen.DEFAULT_GAPPING_SEPARATOR = ['='] ∧ Gen.DEFAULT_HEAD_MARKER = ['\''] := by decide
+
+theorem decompose_concat (sep s : Str) : (decompose sep s).concat = s := by
+  rw [decompose_eq]
+  simp only [Pieces.concat]
+  rw [cutGf_concat, cutIndex_concat, cutIndex_concat, cutHead_concat]
+
+example : decompose "-".toList "NP-SBJ=1-2'".toList =
+    { cat := "NP".toList, gfP := "-SBJ".toList, gapP := "=1".toList, coP := "-2".toList,
+      hmP := "'".toList } := by decide
+
+theorem format_parse (sep : Str) (al ag : Bool) (s : Str) :
+    formatLabel al ag (parseLabel sep s) = render sep al ag (decompose sep s) := by
+  obtain ⟨lab, gf, gfP, gap, co, hm, hf2, hp, hd⟩ := parse_decompose sep s
+  rw [hp, hd]
+  exact format_render sep lab gf gfP gap co hm _ al ag hf2
+
+example : formatLabel false false (parseLabel "-".toList "NP-SBJ=1-2'".toList) = "NP-SBJ=1-2'".toList := by
+  decide
+example : formatLabel false false (parseLabel "-".toList "*T*-1".toList) = "*T*-1".toList := by decide
+example : formatLabel false false (parseLabel "-".toList "EMPTY-X".toList) = "-X".toList := by decide
+example : formatLabel true true (parseLabel "-".toList "=3'".toList) = "EMPTY---=3'".toList := by decide
+example : formatLabel false false (parseLabel "-".toList "A---".toList) = "A".toList := by decide
+example : render "-".toList false false (decompose "-".toList "A---".toList) = "A".toList := by decide
+
+theorem format_parse_id (sep s : Str) (h : noDefaultLiteral sep (decompose sep s) = true) :
+    formatLabel false false (parseLabel sep s) = s := by
+  rw [format_parse]
+  conv => rhs; rw [← decompose_concat sep s]
+  generalize decompose sep s = p at *
+  simp only [noDefaultLiteral, Bool.and_eq_true, decide_eq_true_eq] at h
+  obtain ⟨h1, h2⟩ := h
+  obtain ⟨cat, gfP, gapP, coP, hmP⟩ := p
+  cases cat <;> cases gfP <;> simp_all [render, Pieces.concat]
+
+example : noDefaultLiteral "-".toList (decompose "-".toList "NP-SBJ=1-2'".toList) = true := by decide
+example : noDefaultLiteral "-".toList (decompose "-".toList "*T*-1".toList) = true := by decide
+/-- the hypothesis is needed: these labels contain a default literal and are not reproduced -/
+example : noDefaultLiteral "-".toList (decompose "-".toList "EMPTY-X".toList) = false := by decide
+example : noDefaultLiteral "-".toList (decompose "-".toList "A---".toList) = false := by decide
+
+theorem erase_component (sep s : Str) (c : Comp) :
+    formatLabel false false (eraseParsed (parseLabel sep s) c)
+      = render sep false false ((decompose sep s).erase c) := by
+  obtain ⟨lab, gf, gfP, gap, co, hm, hf2, hp, hd⟩ := parse_decompose sep s
+  rw [hp, hd]
+  cases c
+  · exact format_render sep lab gf gfP [] co hm _ false false hf2
+  · exact format_render sep lab gf gfP gap [] hm _ false false hf2
+  · exact format_render sep lab DEFAULT_EDGE [] gap co hm _ false false (Or.inl ⟨rfl, rfl⟩)
+  · exact format_render sep lab gf gfP gap co false _ false false hf2
+
+example : formatLabel false false (eraseParsed (parseLabel "-".toList "NP-SBJ=1-2'".toList) .co)
+    = "NP-SBJ=1'".toList := by decide
+example : formatLabel false false (eraseParsed (parseLabel "-".toList "NP-SBJ=1-2'".toList) .gf)
+    = "NP=1-2'".toList := by decide
+
+theorem isTrace_iff (sep s : Str) :
+    (parseLabel sep s).isTrace = true ↔
+      ((parseLabel sep s).label.head? = some '*' ∧ (parseLabel sep s).label.getLast? = some '*') := by
+  have hT : (parseLabel sep s).isTrace = isTraceLabel (parseLabel sep s).label := by
+    rw [parseLabel_eq]
+  rw [hT]
+  generalize (parseLabel sep s).label = lab
+  unfold isTraceLabel
+  cases h1 : lab.head? <;> cases h2 : lab.getLast? <;> simp
+
+example : (parseLabel "-".toList "*T*-1".toList).isTrace = true := by decide
+example : (parseLabel "-".toList "*T-1".toList).isTrace = false := by decide
+
+theorem getLabel_decorations (o : OutOpts) (t : Tree) (s : Str) (h : getLabel o t = .ok s) :
+    s = t.fields.label ++ decorations o t := by
+  unfold getLabel at h
+  unfold decorations
+  dsimp only at h ⊢
+  simp only [ne_eq, decide_not] at h ⊢
+  generalize (if (o.gf && !decide (List.head? (t.fields.edge.getD DEFAULT_EDGE) = some '-') &&
+      (!t.kids.isEmpty || o.gfTerminals)) = true
+    then o.gfSeparator.getD DEFAULT_GF_SEP ++ t.fields.edge.getD DEFAULT_EDGE else []) = g at h ⊢
+  generalize t.fields.label = lab at h ⊢
+  generalize t.fields.head = fh at h ⊢
+  generalize t.fields.split = fs at h ⊢
+  generalize t.fields.blockNumber = fb at h ⊢
+  generalize o.markHeads = mh at h ⊢
+  generalize o.splitMarking = sm at h ⊢
+  generalize o.splitNumbering = sn at h ⊢
+  clear t o
+  rcases fh with _ | _ | _ <;> rcases fs with _ | _ | _ <;> rcases fb with _ | n <;>
+    cases mh <;> cases sm <;> cases sn <;>
+    simp [bind, Except.bind, pure, Except.pure, throw, throwThe,
+      MonadExcept.throw, MonadExceptOf.throw] at h ⊢ <;> exact h.symm
+
+example : getLabel { gf := true, markHeads := true, splitMarking := true, splitNumbering := true }
+    (.node { label := "NP".toList, edge := some "SBJ".toList, head := some true, split := some true,
+             blockNumber := some 2 } [.leaf 1 {}]) = .ok "NP-SBJ'*2".toList := rfl
+/-- the hypothesis can fail: `mark_heads` on a node without a `head` key raises `KeyError` -/
+example : getLabel { markHeads := true } (.leaf 1 { label := "NN".toList }) = .error .keyError := rfl
+
+theorem getLabel_plain (t : Tree) : getLabel {} t = .ok t.fields.label := by
+  simp [getLabel]
+  rfl
+
+example : getLabel {} (.leaf 1 { label := "NN".toList, edge := some "HD".toList, head := some true })
+    = .ok "NN".toList := rfl
 
 end TT.Props.C20
